@@ -5,6 +5,7 @@ pub broadcast proof fn lemma_parse_bounds(d: Seq<u8>, index: int)
         (#[trigger] spec_parse_storage(d, index) matches SParse::Msg(n, _) ==> 20 <= n <= d.len()),
         (spec_parse_storage(d, index) is Invalid ==> d.len() >= 20),
 {
+    reveal(spec_parse_storage);
     lemma_hdr_size_bounds(d[16]);
 }
 pub broadcast proof fn lemma_parse_bounds_ser(d: Seq<u8>, index: int)
@@ -12,6 +13,7 @@ pub broadcast proof fn lemma_parse_bounds_ser(d: Seq<u8>, index: int)
         (#[trigger] spec_parse_serial(d, index) matches SParse::Msg(n, _) ==> 8 <= n <= d.len()),
         (spec_parse_serial(d, index) is Invalid ==> d.len() >= 8),
 {
+    reveal(spec_parse_serial);
     lemma_hdr_size_bounds(d[4]);
 }
 pub proof fn lemma_hdr_size_bounds(h: u8)
@@ -122,6 +124,8 @@ impl<'a, R: VBufRead> DltMessageIterator<'a, R> {
 //@   hint before `loop`
 //@|    let ghost u0 = self.reader.unread();
 //@|    let ghost k: int = 0;   // bytes skipped so far in this call
+//@|    broadcast use lemma_parse_bounds, lemma_parse_bounds_ser;
+//@   hint loopstart 1
 //@|    broadcast use lemma_parse_bounds, lemma_parse_bounds_ser;
 //@   loop 1
 //@|    invariant
